@@ -5,30 +5,33 @@ import os
 import shutil
 import sys
 
-OUT = "/tmp/out"
+OUTS = [("/tmp/out", ""), ("/tmp/out2", "2")]   # (directory, prefix of the change letter): round 1, round 2
 DST = os.path.join(os.path.dirname(os.path.dirname(os.path.abspath(__file__))), "seeded")
 # neutralised by a genuine-defect repair (the demo passes with the patch applied to the repaired tree): not kept
 DROPPED = {("C02", "A"), ("C19", "A")}
 # rebased onto the repaired tree: the rebased patch is the one to keep
 REBASED = {("C11", "B"): "patch_rebased.diff"}
-for pid in sorted(os.listdir(OUT)):
+for OUT, PREFIX in OUTS:
+  if not os.path.isdir(OUT):
+    continue
+  for pid in sorted(os.listdir(OUT)):
     for x in sorted(os.listdir(os.path.join(OUT, pid))):
-        if (pid, x) in DROPPED:
+        if (pid, PREFIX + x) in DROPPED:
             continue
         d = os.path.join(OUT, pid, x)
         cj = os.path.join(d, "confirm.json")
         if not os.path.isdir(d) or not os.path.exists(cj):
             continue
         conf = json.load(open(cj))
-        dst = os.path.join(DST, "%s_%s" % (pid, x))
+        dst = os.path.join(DST, "%s_%s%s" % (pid, PREFIX, x))
         meta_path = os.path.join(dst, "meta.json")
         old = json.load(open(meta_path)) if os.path.exists(meta_path) else {}
         os.makedirs(dst, exist_ok=True)
         for f in ("patch.diff", "demo.py", "notes.md"):
             if os.path.exists(os.path.join(d, f)):
                 shutil.copy(os.path.join(d, f), os.path.join(dst, f))
-        if (pid, x) in REBASED and os.path.exists(os.path.join(d, REBASED[(pid, x)])):
-            shutil.copy(os.path.join(d, REBASED[(pid, x)]), os.path.join(dst, "patch.diff"))
+        if (pid, PREFIX + x) in REBASED and os.path.exists(os.path.join(d, REBASED[(pid, PREFIX + x)])):
+            shutil.copy(os.path.join(d, REBASED[(pid, PREFIX + x)]), os.path.join(dst, "patch.diff"))
         notes = open(os.path.join(d, "notes.md")).read() if os.path.exists(os.path.join(d, "notes.md")) else ""
         meta = {
             "property": pid,
